@@ -107,6 +107,100 @@ func handlers20(f *goast.File) []string {
 	return out
 }
 
+// preValidation20: for every handler, the names of the calls made on the server (receiver rooted at `s` or `rc`)
+// BEFORE the statement that validates the caller, in source order, skipping the forwarding block
+// (`if !s.isLocalRequest(...) {...}`). For stream handlers the statements of the receive loop are walked.
+// A handler that touches anything before it validates shows up here.
+func preValidation20(f *goast.File) []string {
+	isValidation := func(n ast.Node) bool {
+		found := false
+		ast.Inspect(n, func(x ast.Node) bool {
+			switch y := x.(type) {
+			case *ast.CallExpr:
+				if se, ok := y.Fun.(*ast.SelectorExpr); ok {
+					switch se.Sel.Name {
+					case "validateRequest", "validateInternalRequest":
+						found = true
+					case "Sync":
+						if strings.Contains(f.Src(se.X), "GetRegionSyncer()") {
+							found = true
+						}
+					}
+				}
+			case *ast.BinaryExpr:
+				t := f.Src(y)
+				if y.Op.String() == "!=" && strings.Contains(t, "GetClusterId()") && strings.Contains(t, "s.clusterID") {
+					found = true
+				}
+			}
+			return !found
+		})
+		return found
+	}
+	rooted := func(e ast.Expr) bool {
+		for {
+			switch x := e.(type) {
+			case *ast.SelectorExpr:
+				e = x.X
+			case *ast.CallExpr:
+				e = x.Fun
+			case *ast.Ident:
+				return x.Name == "s" || x.Name == "rc" || x.Name == "server" || x.Name == "stream"
+			default:
+				return false
+			}
+		}
+	}
+	var out []string
+	for _, d := range f.AST.Decls {
+		fd, ok := d.(*ast.FuncDecl)
+		if !ok || fd.Recv == nil || fd.Body == nil || !fd.Name.IsExported() || f.Src(fd.Recv.List[0].Type) != "*Server" {
+			continue
+		}
+		takesPdpb := false
+		for _, p := range fd.Type.Params.List {
+			if strings.Contains(f.Src(p.Type), "pdpb.") {
+				takesPdpb = true
+			}
+		}
+		if !takesPdpb {
+			continue
+		}
+		stmts := fd.Body.List
+		for _, st := range stmts { // a stream handler: the receive loop
+			if fs, ok := st.(*ast.ForStmt); ok && isValidation(fs) {
+				stmts = fs.Body.List
+				break
+			}
+		}
+		var calls []string
+		validated := false
+		for _, st := range stmts {
+			if is, ok := st.(*ast.IfStmt); ok && strings.Contains(f.Src(is.Cond), "isLocalRequest") {
+				continue
+			}
+			if isValidation(st) {
+				validated = true
+				break
+			}
+			ast.Inspect(st, func(x ast.Node) bool {
+				if c, ok := x.(*ast.CallExpr); ok {
+					if se, ok := c.Fun.(*ast.SelectorExpr); ok && rooted(se.X) {
+						calls = append(calls, goast.Q(se.Sel.Name))
+					}
+				}
+				return true
+			})
+		}
+		if !validated {
+			calls = append(calls, goast.Q("<never validates>"))
+		}
+		out = append(out, "("+goast.Q(fd.Name.Name)+", "+goast.CoqList(calls)+")")
+	}
+	sort.Strings(out)
+	return out
+}
+
 func genC20(repo string) (string, error) {
 	var o out
 	srv, err := goast.Load(repo, "server/server.go")
@@ -172,6 +266,7 @@ func genC20(repo string) (string, error) {
 		return "", fmt.Errorf("server/grpc_service.go: only %d gRPC handlers found", len(hs))
 	}
 	fmt.Fprintf(&o.sb, "Definition handlers : list (string * list string) := (* server/grpc_service.go: handler x how it validates the caller *)\n  %s.\n", goast.CoqList(hs))
+	fmt.Fprintf(&o.sb, "Definition pre_validation_calls : list (string * list string) := (* server/grpc_service.go: calls on the server before the validating statement *)\n  %s.\n", goast.CoqList(preValidation20(grpc)))
 	// RegionSyncer.Sync compares the cluster id itself
 	sy, err := syn.Func("RegionSyncer", "Sync")
 	if err != nil {
